@@ -142,7 +142,18 @@ impl Out {
 
 /// one checked call: evaluate, record, compare with the expectation; returns the outcome
 pub fn checked_call(out: &mut Out, e: &str, input: &str, ph: &Val, exp: Option<&crate::expect::Exp>, claim: Value, nontrivial: bool, ctx: &Value) -> Outcome {
+    let t0 = std::time::Instant::now();
     let (o, t) = call(e, input, ph);
+    // C02 "returns promptly": work that the step counters do not see (a loop without a tick).  A call normally takes microseconds;
+    // one that takes more than a second is repeated twice, and reported only if the fastest of the three is still that slow
+    // (so that a descheduled process cannot raise the alarm).
+    if t0.elapsed().as_millis() > 1000 && input.chars().count() <= 256 {
+        let mut best = t0.elapsed();
+        for _ in 0..2 { let t1 = std::time::Instant::now(); let _ = call(e, input, ph); best = best.min(t1.elapsed()); }
+        if best.as_millis() > 1000 {
+            out.finding("budget", e, input, ph, "the call returns promptly (microseconds; bound: 4096+256*len counted steps)", &format!("{} ms for {} counted steps", best.as_millis(), t.total()), ctx.clone());
+        }
+    }
     out.stats.calls += 1;
     out.note_ticks(input, &t);
     let key = h64(&(e, input, ph.canon()));
